@@ -210,7 +210,9 @@ func GenPointOps(rng *rand.Rand, x *Exec, h, lo, hi, n int, script *[]Ev) {
 			k = s.lo + rng.IntN(top-s.lo+1)
 		}
 		if (o == "seekge" || o == "seekprefixge") && s.sko == o && k >= s.sk && rng.IntN(2) == 0 {
-			if s.st == "after" || (s.st == "at" && (k > s.curK || s.nextsSince == 0)) {
+			// legal only if nothing was done that moved the iterator beyond the key an honest
+			// seek would find: exhausted and k beyond the last key seen, or positioned before k
+			if (s.st == "after" && k > s.curK) || (s.st == "at" && (k > s.curK || s.nextsSince == 0)) {
 				f = 1
 			}
 		}
@@ -229,6 +231,7 @@ func GenPointOps(rng *rand.Rand, x *Exec, h, lo, hi, n int, script *[]Ev) {
 		switch o {
 		case "seekge", "seekprefixge":
 			s.sko, s.sk, s.nextsSince = o, k, 0
+			s.curK = -1
 		case "next":
 			s.nextsSince++
 		default:
